@@ -37,7 +37,7 @@ claimed = {
                   "time-too-old / time-too-new with a symbolic clock, signed version gating, height/MTP bookkeeping), unknown-parent handling, verification-flag schedule, BIP34 height prefix for every uint32, "
                   "IsFinalTx, Merkle root and the CVE-2012-2459 mutation flag for up to 5 (8) symbolic leaves, compact-target decoding (SetCompact: negative, overflow, zero) for every 32-bit value, compact encoding (GetCompact) for every value up to 32 bytes, the hash <= target comparison, difficulty retargeting (four parent heights x six parent targets x arbitrary period timestamps) against pow.cpp, the BIP141 witness commitment rule and the coinbase rules (first and only coinbase, script length 2..100, BIP34 height push) of PostCheckBlock.",
              ref="6/C05", note=NOTE + "Testnet difficulty rules and the weight limit are not covered; PoW and required-bits are stubs with arbitrary results in PreCheckBlock. "),
- "C10": dict(text="Bounded model checking of the UTXO record codecs: serialize -> parse and single-output lookup round trips in the plain and the compressed format for records of 1..3 output slots "
+ "C10": dict(text="Bounded model checking of the UTXO record codecs: serialize -> parse and single-output lookup round trips in the plain format for records of 1..2 (thorough 3) output slots and in the compressed format for records of 1..2 output slots (thorough: ten boundary amounts instead of four) "
                   "(each present or spent), scripts from eight families (arbitrary short, P2PKH/P2SH/compressed-P2PK templates with symbolic payload, same-length near misses, CompactSize-boundary lengths), symbolic txid/height/flags/values.",
              ref="6/C10", note=NOTE + "Outside: snapshot file I/O, uncompressed-key P2PK compression (curve arithmetic), more than 3 outputs. "),
  "C02": dict(text="Bounded model checking of the three signature-hash algorithms against reference preimages written from the original algorithm, BIP143 and BIP341/342: for every transaction "
